@@ -656,7 +656,7 @@ class Triangle(Polygon, Simplex):
         lambda1 = det(np.stack([p, b, c], axis=-2))
         lambda2 = det(np.stack([a, p, c], axis=-2))
 
-        result = (lambda1 <= 0) == (lambda2 <= 0)
+        result = ((lambda1 <= 0) & (lambda2 <= 0)) | ((lambda1 >= 0) & (lambda2 >= 0))
 
         if not np.any(result):
             return result
@@ -667,12 +667,12 @@ class Triangle(Polygon, Simplex):
 
         if np.isscalar(area):
             if area < 0:
-                return lambda1 <= 0 and lambda3 <= 0
-            return lambda1 >= 0 and lambda3 >= 0
+                return lambda1 <= 0 and lambda2 <= 0 and lambda3 <= 0
+            return lambda1 >= 0 and lambda2 >= 0 and lambda3 >= 0
 
         ind = area < 0
-        result[ind] &= (lambda1[ind] <= 0) & (lambda3[ind] <= 0)
-        result[~ind] &= (lambda1[~ind] >= 0) & (lambda3[~ind] >= 0)
+        result[ind] &= (lambda1[ind] <= 0) & (lambda2[ind] <= 0) & (lambda3[ind] <= 0)
+        result[~ind] &= (lambda1[~ind] >= 0) & (lambda2[~ind] >= 0) & (lambda3[~ind] >= 0)
 
         return result
 
